@@ -636,14 +636,14 @@ static int property_main(const Options &o) {
     rawj.set("violation", cj.at("violation"));
     rawj.set("trace", cj.at("trace"));
     write_file(raw, rawj.dump(1));
-    // determinism gate: two fresh processes must agree
+    // determinism gate: two fresh processes must agree (the second replay is done
+    // below, only for candidates that are not attributed to a known finding)
     std::string c1, h1, d1, c2, h2, d2;
     fresh_replay(raw, "", c1, h1, d1);
-    fresh_replay(raw, "", c2, h2, d2);
-    if (c1 != cls || c2 != cls || h1 != h2) {
+    if (c1 != cls) {
       nondeterministic++;
-      printf("NONDETERMINISTIC run=%ld class=%s replay1=%s/%s replay2=%s/%s file=%s\n", idx,
-             cls.c_str(), c1.c_str(), h1.c_str(), c2.c_str(), h2.c_str(), raw.c_str());
+      printf("NONDETERMINISTIC run=%ld class=%s replay1=%s/%s file=%s\n", idx, cls.c_str(),
+             c1.c_str(), h1.c_str(), raw.c_str());
       continue;
     }
     // attribution on the raw case
@@ -674,6 +674,13 @@ static int property_main(const Options &o) {
                                k.what + " (met again by seeded search, replay=" + keep + ")");
       }
       unlink(raw.c_str());
+      continue;
+    }
+    fresh_replay(raw, "", c2, h2, d2);
+    if (c2 != cls || h1 != h2) {
+      nondeterministic++;
+      printf("NONDETERMINISTIC run=%ld class=%s replay1=%s/%s replay2=%s/%s file=%s\n", idx,
+             cls.c_str(), c1.c_str(), h1.c_str(), c2.c_str(), h2.c_str(), raw.c_str());
       continue;
     }
     if (per_class[cls] >= 3 || reported >= 12) {
@@ -1077,6 +1084,6 @@ int main(int argc, char **argv) {
   if (o.runs < 0)
     o.runs = (o.tier == "thorough") ? 400000 : 30000;
   if (o.max_seconds < 0)
-    o.max_seconds = (o.tier == "thorough") ? 1500 : 60;
+    o.max_seconds = (o.tier == "thorough") ? 1200 : 60;
   return property_main(o);
 }
